@@ -30,6 +30,46 @@ def run(pm, ctx):
     ctx.rule("C13-a", "a score that treats some sample or cluster position specially is not invariant under reordering", floor=12)
     ctx.rule("C13-b", "finite scores and gradients on the closed simplex require clipping before log, division and sqrt", floor=14)
     ctx.rule("C13-c", "an empty cluster must receive zero gradient", floor=12)
+    ctx.rule("C13-d", "a score is a function of (predictions, affinity) alone: no value computed in one call is reused in another call "
+             "on the evidence of object identity or shape", floor=12)
+    for cname in GEMINI_CLASSES:
+        ci, f = evaluate_func(pm, cname)
+        for meth in ("evaluate", "compute_affinity"):
+            fm = None
+            for C in ci.mro:
+                if meth in C.methods:
+                    fm = (C, C.methods[meth])
+                    break
+            if fm is None:
+                continue
+            C, g_ = fm
+            site = f"{cname}.{meth}: stateless"
+            selfn = func_params(g_)[0]
+            stores = [n for n in ast.walk(g_) if isinstance(n, ast.Attribute) and isinstance(n.ctx, ast.Store) and isinstance(n.value, ast.Name) and n.value.id == selfn]
+            if not stores:
+                ctx.ok("C13-d", site, "no attribute of the objective is written")
+                continue
+            # which condition decides whether the stored value is reused?
+            keyed = []
+            for t in [x for x in ast.walk(g_) if isinstance(x, (ast.If, ast.IfExp))]:
+                for c in ast.walk(t.test):
+                    if isinstance(c, ast.Compare) and any(isinstance(o, (ast.Is, ast.IsNot)) for o in c.ops) and \
+                            any(isinstance(x, ast.Attribute) and isinstance(x.value, ast.Name) and x.value.id == selfn for x in ast.walk(c)) and \
+                            not any(isinstance(x, ast.Constant) and x.value is None for x in [c.left] + c.comparators):
+                        keyed.append(("identity", c))
+                    if isinstance(c, ast.Compare) and any(isinstance(x, ast.Attribute) and x.attr == "shape" for x in ast.walk(c)) and \
+                            any(isinstance(x, ast.Attribute) and isinstance(x.value, ast.Name) and x.value.id == selfn for x in ast.walk(c)):
+                        keyed.append(("shape", c))
+                    if isinstance(c, ast.Call) and (call_name(c) or "") == "id":
+                        keyed.append(("identity", c))
+            if keyed:
+                kind, c = keyed[0]
+                ctx.violation("C13-d", C.unit.relpath, f"{C.name}.{meth}", norm_src(stores[0]._parent)[:140] if hasattr(stores[0], "_parent") else norm_src(stores[0]),
+                              f"a value derived from the arguments is cached on the objective and reused when `{norm_src(c)}` ({kind} of the argument, not its contents): "
+                              f"the same array object with new contents (a reordered or refilled buffer) is scored with the stale value, so the score is no longer "
+                              f"a function of its arguments", line=stores[0].lineno, site=site)
+            else:
+                ctx.unrecognised("C13-d", site, f"`{norm_src(stores[0])}` is written during the evaluation")
     for cname in GEMINI_CLASSES:
         ci, f = evaluate_func(pm, cname)
         unit, qn = ci.unit, f"{cname}.evaluate"
